@@ -109,13 +109,14 @@ def find_link_image(string, offset, delimiters, matches, root=None):
 
 
 def process_emphasis(string, stack_bottom, delimiters, matches):
-    star_bottom = stack_bottom
-    underscore_bottom = stack_bottom
+    # openers_bottom, keyed as in the CommonMark reference implementation:
+    # (delimiter char, closer can open, original closer length mod 3) -> source position
+    openers_bottom = {}
     curr_pos = next_closer(stack_bottom, delimiters)
     while curr_pos is not None:
         closer = delimiters[curr_pos]
-        bottom = star_bottom if closer.type[0] == '*' else underscore_bottom
-        open_pos = matching_opener(curr_pos, delimiters, bottom)
+        key = (closer.type[0], closer.open, closer.orig_number % 3)
+        open_pos = matching_opener(curr_pos, delimiters, stack_bottom, openers_bottom.get(key, -1))
         if open_pos is not None:
             opener = delimiters[open_pos]
             n = 2 if closer.number >= 2 and opener.number >= 2 else 1
@@ -127,22 +128,15 @@ def process_emphasis(string, stack_bottom, delimiters, matches):
             matches.append(match)
             # remove all delimiters in between
             del delimiters[open_pos + 1:curr_pos]
-            curr_pos -= curr_pos - open_pos - 1
+            curr_pos = open_pos + 1
             # remove appropriate number of chars from delimiters
             if not opener.remove(n, left=False):
                 delimiters.remove(opener)
                 curr_pos -= 1
             if not closer.remove(n, left=True):
                 delimiters.remove(closer)
-                curr_pos -= 1
-            if curr_pos < 0:
-                curr_pos = 0
         else:
-            bottom = curr_pos - 1 if curr_pos > 1 else None
-            if closer.type[0] == '*':
-                star_bottom = bottom
-            else:
-                underscore_bottom = bottom
+            openers_bottom[key] = closer.start
             if not closer.open:
                 delimiters.remove(closer)
             else:
@@ -344,16 +338,17 @@ def next_closer(curr_pos, delimiters):
     return None
 
 
-def matching_opener(curr_pos, delimiters, bottom):
-    if curr_pos > 0:
-        curr_delimiter = delimiters[curr_pos]
-        index = curr_pos - 1
-        for delimiter in delimiters[curr_pos - 1:bottom:-1]:
-            if (hasattr(delimiter, 'open')
-                    and delimiter.open
-                    and delimiter.closed_by(curr_delimiter)):
-                return index
-            index -= 1
+def matching_opener(curr_pos, delimiters, stack_bottom, bottom_pos):
+    curr_delimiter = delimiters[curr_pos]
+    lowest = -1 if stack_bottom is None else stack_bottom
+    for index in range(curr_pos - 1, lowest, -1):
+        delimiter = delimiters[index]
+        if delimiter.start < bottom_pos:
+            break
+        if (hasattr(delimiter, 'open')
+                and delimiter.open
+                and delimiter.closed_by(curr_delimiter)):
+            return index
     return None
 
 
@@ -424,6 +419,7 @@ class Delimiter:
     def __init__(self, start, end, string):
         self.type = string[start:end]
         self.number = end - start
+        self.orig_number = self.number
         self.active = True
         self.start = start
         self.end = end
@@ -452,8 +448,8 @@ class Delimiter:
             # restrictions apply: the sum of the lengths of the delimiter runs
             # containing the opening and closing delimiters must not be a multiple of 3
             # unless both lengths are multiples of 3.
-            return ((self.number + other.number) % 3 != 0
-                    or (self.number % 3 == 0 and other.number % 3 == 0))
+            return ((self.orig_number + other.orig_number) % 3 != 0
+                    or (self.orig_number % 3 == 0 and other.orig_number % 3 == 0))
         return True
 
     def __repr__(self):
